@@ -1011,7 +1011,7 @@ def gen_case(ctx, idx):
             ss = gen_settings(rng, base, ps, "server", thorough)
         # SRP and anonymous suites do not exist in TLS 1.3 (and an SRP ClientHello that offers TLS 1.3 is
         # rejected for its missing supported_groups): mostly cap one side at TLS 1.2
-        if cfl in ("srp", "anon") and rng.random() < 0.85:
+        if cfl in ("srp", "anon") and rng.random() < 0.3:
             side = cs if (cfl == "srp" or rng.random() < 0.5) else ss
             if tuple(side["maxVersion"]) > (3, 3):
                 side["maxVersion"] = rng.choice([(3, 3), (3, 3), (3, 2), (3, 1)])
@@ -1044,7 +1044,7 @@ def gen_case(ctx, idx):
         cs, ss = base, copy.deepcopy(base)
     scred = None
     if sfl in ("cert", "srpcert", "pskcert"):
-        scred = rng.choice(SERVER_CREDS) if sfl != "srpcert" else rng.choice(["rsa", "rsa", "rsapss"])
+        scred = rng.choice(SERVER_CREDS) if sfl != "srpcert" else rng.choice(["rsa", "rsa", "rsapss", "ecdsa"])
     req = sfl in ("cert", "pskcert") and rng.random() < 0.3
     ccred = rng.choice(CLIENT_CREDS + [None]) if (cfl == "cert" and (req or rng.random() < 0.1)) else None
     calpn = subset(rng, ALPNS) if (rng.random() < 0.35 and cfl == "cert") else None
@@ -1171,6 +1171,15 @@ def directed_cases(ctx):
     out.append(mk(cs={"maxVersion": (3, 3), "keyExchangeNames": ["ecdh_anon"], "eccCurves": ["secp256r1"], "keyShares": ["secp256r1"]},
                   ss={"maxVersion": (3, 3), "keyExchangeNames": ["ecdh_anon"], "eccCurves": ["secp384r1"], "keyShares": ["secp384r1"]},
                   cflavour="anon", sflavour="anon", scred=None))
+    # pairs that must complete (regression keys): default SRP and anonymous pairs (the client caps itself at
+    # TLS 1.2), an srp_sha-only client against a server with verifier database AND certificate
+    out.append(mk(cflavour="srp", sflavour="srp", scred=None, srp_bits=2048, must_complete="c03:default-srp-pair-fails"))
+    out.append(mk(cflavour="srp", sflavour="srpcert", scred="rsa", srp_bits=2048, must_complete="c03:default-srp-pair-fails"))
+    out.append(mk(cflavour="anon", sflavour="anon", scred=None, must_complete="c03:default-anon-pair-fails"))
+    for sc_ in ("rsa", "ecdsa"):
+        out.append(mk(cs={"keyExchangeNames": ["srp_sha"]}, cflavour="srp", sflavour="srpcert", scred=sc_, srp_bits=2048,
+                      must_complete="c03:srp-sha-client-vs-srp-cert-server-fails"))
+    out.append(mk(cs={"minVersion": (3, 4)}, cflavour="srp", sflavour="srp", scred=None, srp_bits=2048))
     # the regions `compatible` has to exclude (counterexample theorems of Props/C03 section 5)
     out.append(mk(cs={"maxVersion": (3, 3), "keyExchangeNames": ["dhe_rsa", "rsa"], "dhGroups": [], "minKeySize": 2048},
                   ss={"maxVersion": (3, 3), "keyExchangeNames": ["dhe_rsa", "rsa"], "dhParams": dh_params(1536)}))
@@ -1204,7 +1213,16 @@ def evaluate(ctx, case, pending):
         # argument validation of the handshake functions (before any message)
         ctx.count("skipped:ValueError " + str(e)[:40])
         return
+    if L.client.state == "error" and isinstance(L.client.exc, ValueError) and not L.link.wire_log["c2s"]:
+        # raised by the handshake function before anything is sent (e.g. SRP / anonymous key exchange with
+        # minVersion above TLS 1.2): a caller argument error, not a handshake
+        ctx.count("skipped:client ValueError before any byte: " + str(L.client.exc)[:50])
+        return
     out = impl_outcome(L, cap, case)
+    if case.get("must_complete") and out[0] != "ok":
+        ctx.violation(case["must_complete"],
+                      "settings that share a version, suite, group and credentials did not complete: %s" % fmt_outcome(out),
+                      dict(jsonable_case(case), stage="must-complete", key=case["must_complete"]))
     ctx.count("flavour:%s/%s" % (case["cflavour"], case["sflavour"]))
     ctx.count("outcome:" + (out[0] if out[0] == "ok" else " ".join(str(x) for x in out[:3])))
     if out[0] == "ok":
